@@ -78,12 +78,13 @@ struct Session<'a> {
     pool: Vec<(RegLan, u32)>, // term, approximate size
     chars: Vec<u32>,          // test alphabet
     maxlen: usize,
+    observed: std::collections::HashSet<usize>,
     t: &'a mut Trace,
 }
 
 impl<'a> Session<'a> {
     fn new(t: &'a mut Trace, chars: Vec<u32>, maxlen: usize) -> Self {
-        Session { m: ReManager::new(), ops: Vec::new(), pool: Vec::new(), chars, maxlen, t }
+        Session { m: ReManager::new(), ops: Vec::new(), pool: Vec::new(), chars, maxlen, observed: std::collections::HashSet::new(), t }
     }
 
     fn rec(&mut self, lhs: String, res: String, nontrivial: bool) {
@@ -170,13 +171,21 @@ fn lr_str(r: &LoopRange) -> String {
 fn gen_constructor(s: &mut Session, rng: &mut Rng, size_cap: u32) {
     let n = s.pool.len();
     let pick = |rng: &mut Rng, pool: &Vec<(RegLan, u32)>| -> (RegLan, u32) {
-        // bias towards recent terms
+        // bias towards recent terms, and away from the built-in constants (ids 0..5)
         let n = pool.len();
-        if rng.chance(1, 2) && n > 6 {
-            pool[n - 1 - rng.below(6) as usize]
-        } else {
-            pool[rng.below(n as u64) as usize]
+        let mut best = pool[rng.below(n as u64) as usize];
+        for _ in 0..3 {
+            let cand = if rng.chance(1, 2) && n > 6 {
+                pool[n - 1 - rng.below(6) as usize]
+            } else {
+                pool[rng.below(n as u64) as usize]
+            };
+            best = cand;
+            if cand.0.verif_id() >= 6 || rng.chance(1, 6) {
+                break;
+            }
         }
+        best
     };
     let kind = rng.below(100);
     if n < 4 || kind < 14 {
@@ -311,6 +320,9 @@ fn guarded_m<F: FnOnce(&mut ReManager) -> String>(m: &mut ReManager, f: F) -> St
 
 /// observation ops on one term
 fn observe(s: &mut Session, rng: &mut Rng, e: RegLan, size: u32, heavy: bool) {
+    if !s.observed.insert(e.verif_id()) {
+        return;
+    }
     let ie = Session::id(e);
     s.rec(format!("re nullable {}", ie), p_bool(e.nullable), true);
     s.rec(format!("re deriv_class {}", ie), p_partition_of(e), true);
@@ -402,6 +414,18 @@ fn observe(s: &mut Session, rng: &mut Rng, e: RegLan, size: u32, heavy: bool) {
             Err(x) => p_err(x),
         });
         s.rec(format!("re start_class {} {}", ie, p_cid(bad)), r, true);
+        // compilation
+        let r = guarded_m(&mut s.m, |m| crate::fam_aut::aut_str(&m.compile(e)));
+        s.rec(format!("re compile {}", ie), r, true);
+        let k = nd;
+        for n in [0usize, k.saturating_sub(1), k, k + 1] {
+            let r = guarded_m(&mut s.m, |m| match m.try_compile(e, n) {
+                None => "none".into(),
+                Some(a) => format!("some:{}", crate::fam_aut::aut_str(&a)),
+            });
+            s.t.count(if r == "none" { "try_compile=none" } else { "try_compile=some" });
+            s.rec(format!("re try_compile {} {}", ie, n), r, true);
+        }
         // search (hook) on short strings
         for _ in 0..2 {
             let w = rand_string(rng, &chars, 5);
@@ -481,6 +505,106 @@ fn random_session(t: &mut Trace, rng: &mut Rng, n_cons: usize, size_cap: u32, ma
     s.finish();
 }
 
+/// a session on the thread-local manager behind the `re_*` wrappers, in a fresh thread
+/// (fresh manager); exercises str_in_re / str_replace_re / str_replace_re_all (C01, C07, C10)
+fn global_session(seed: u64, maxlen: usize) -> Vec<(String, String, bool)> {
+    use aws_smt_strings::smt_regular_expressions as w;
+    let h = std::thread::spawn(move || {
+        let mut rng = Rng::new(seed);
+        let mut out: Vec<(String, String, bool)> = Vec::new();
+        let mut ops: Vec<(String, String, bool)> = Vec::new();
+        let other = *rng.pick(&[0u32, 96, 101, 120, MAX_CHAR]);
+        let chars: Vec<u32> = vec![97, 98, 99, other];
+        let mut pool: Vec<RegLan> = Vec::new();
+        let id = |r: RegLan| r.verif_id().to_string();
+        let smt = |v: &[u32]| SmtString::from(v);
+        for _ in 0..40 {
+            let n = pool.len();
+            let kind = if n < 3 { rng.below(4) } else { rng.below(16) };
+            let x = if n > 0 { pool[rng.below(n as u64) as usize] } else { w::re_none() };
+            let y = if n > 0 { pool[rng.below(n as u64) as usize] } else { w::re_none() };
+            let (lhs, f): (String, Box<dyn FnOnce() -> RegLan>) = match kind {
+                0 => {
+                    let v = rand_string(&mut rng, &chars, 3);
+                    (format!("re str {}", p_nats(&v)), Box::new(move || w::str_to_re(&SmtString::from(&v[..]))))
+                }
+                1 => {
+                    let a = pick_char(&mut rng, &chars);
+                    let b = pick_char(&mut rng, &chars);
+                    (
+                        format!("re smt_range [{}] [{}]", a, b),
+                        Box::new(move || w::re_range(&SmtString::from(a), &SmtString::from(b))),
+                    )
+                }
+                2 => ("re all_chars".into(), Box::new(|| w::re_allchar())),
+                3 => {
+                    let c = *rng.pick(&["empty", "full"]);
+                    (format!("re {}", c), Box::new(move || if c == "empty" { w::re_none() } else { w::re_all() }))
+                }
+                4 | 5 => (format!("re concat {} {}", id(x), id(y)), Box::new(move || w::re_concat(x, y))),
+                6 | 7 => (format!("re union {} {}", id(x), id(y)), Box::new(move || w::re_union(x, y))),
+                8 => (format!("re inter {} {}", id(x), id(y)), Box::new(move || w::re_inter(x, y))),
+                9 => (format!("re comp {}", id(x)), Box::new(move || w::re_comp(x))),
+                10 => (format!("re diff {} {}", id(x), id(y)), Box::new(move || w::re_diff(x, y))),
+                11 => (format!("re star {}", id(x)), Box::new(move || w::re_star(x))),
+                12 => (format!("re plus {}", id(x)), Box::new(move || w::re_plus(x))),
+                13 => (format!("re opt {}", id(x)), Box::new(move || w::re_opt(x))),
+                14 => {
+                    let k = rng.below(4) as u32;
+                    (format!("re exp {} {}", id(x), k), Box::new(move || w::re_power(x, k)))
+                }
+                _ => {
+                    let i = rng.below(3) as u32;
+                    let j = rng.below(4) as u32;
+                    (format!("re smt_loop {} {} {}", id(x), i, j), Box::new(move || w::re_loop(x, i, j)))
+                }
+            };
+            match std::panic::catch_unwind(std::panic::AssertUnwindSafe(f)) {
+                Ok(r) => {
+                    ops.push((lhs, id(r), true));
+                    pool.push(r);
+                }
+                Err(_) => ops.push((lhs, "PANIC".into(), true)),
+            }
+        }
+        // membership and replacement through the wrappers
+        let mut seen = std::collections::HashSet::new();
+        for &e in pool.iter() {
+            if !seen.insert(e.verif_id()) {
+                continue;
+            }
+            for _ in 0..3 {
+                let s = rand_string(&mut rng, &chars, 5);
+                let r = guarded(|| p_bool(w::str_in_re(&smt(&s), e)));
+                ops.push((format!("re str_in_re {} {}", id(e), p_nats(&s)), r, true));
+            }
+            for _ in 0..3 {
+                let s = rand_string(&mut rng, &chars, 6);
+                let t = match rng.below(3) {
+                    0 => vec![],
+                    1 => vec![120u32],
+                    _ => rand_string(&mut rng, &chars, 2),
+                };
+                let r = guarded(|| p_nats(w::str_replace_re(&smt(&s), e, &smt(&t)).as_ref()));
+                ops.push((format!("re replace_re {} {} {}", p_nats(&s), id(e), p_nats(&t)), r, true));
+                let r = guarded(|| p_nats(w::str_replace_re_all(&smt(&s), e, &smt(&t)).as_ref()));
+                ops.push((format!("re replace_re_all {} {} {}", p_nats(&s), id(e), p_nats(&t)), r, true));
+            }
+        }
+        // dump the thread-local table
+        out.push(("re begin".into(), "ok".into(), false));
+        let n = w::verif_with_manager(|m| m.verif_num_terms());
+        for i in 0..n {
+            let node = w::verif_with_manager(|m| enc_node(m.verif_term(i)));
+            out.push((format!("re node {} {}", i, node), "ok".into(), false));
+        }
+        out.push((format!("re strings {} {}", p_nats(&chars), maxlen), "ok".into(), false));
+        out.extend(ops);
+        out
+    });
+    h.join().unwrap_or_default()
+}
+
 pub fn run(t: &mut Trace, rng: &mut Rng, thorough: bool) {
     t.rule = "sessions on a fresh ReManager: random constructor programs over all 17 public constructors (atoms over a 4-letter test alphabet plus boundary characters; binary and n-ary operators on earlier results, size-capped), after which the full term table is dumped and every operation is replayed by the model by id; observations per term: nullable, derivative classes, membership on random strings, char/class/set/str derivatives at class cut points ±1 and invalid class ids, derivative closure, emptiness, witness, start_char/start_class, regex search, included_in on random ordered pairs. distinct = distinct operation lines; non-trivial = every line except table/bookkeeping lines".into();
     corpus(t);
@@ -488,5 +612,14 @@ pub fn run(t: &mut Trace, rng: &mut Rng, thorough: bool) {
     for k in 0..sessions {
         let (n_cons, cap) = if k % 4 == 0 { (30, 12) } else { (60, 24) };
         random_session(t, rng, n_cons, cap, if thorough { 4 } else { 3 });
+    }
+    let gsessions = if thorough { 200 } else { 20 };
+    for _ in 0..gsessions {
+        let seed = rng.next();
+        for (lhs, res, nt) in global_session(seed, 3) {
+            let opname = lhs.split(' ').nth(1).unwrap_or("?").to_string();
+            t.count(&format!("wrapper-op={}", opname));
+            t.op(&lhs, &res, nt);
+        }
     }
 }
